@@ -1093,7 +1093,12 @@ class QuantityMeta(ClassWithDefinitionMeta):
         if isinstance(define_as, Term):
             unit._definition = define_as
             norm_def = define_as.normalized()
-            equiv = norm_def.num_elem or ONE
+            equiv = norm_def.num_elem
+            if equiv is None:
+                equiv = ONE
+            elif equiv == 0:
+                # can happen if the defining quantity got quantized to zero
+                raise ValueError("A unit can not be defined as zero.")
             if isinstance(equiv, Integral):
                 # the quotient of two ints would be a float
                 equiv = Decimal(equiv)
